@@ -31,9 +31,14 @@ def _expected(m, tab, v, r, s, z):
     return ("ok", pts[t * pow(r % n, -1, n) % n])
 
 
+_FORM = {"n": 0}
+
+
 def _observe(S, h, v, r, s):
     try:
-        Q = S.ecdsa_raw_recover(h, (v, r, s))
+        # the triple as a tuple, every third time as a list
+        _FORM["n"] += 1
+        Q = S.ecdsa_raw_recover(h, [v, r, s] if _FORM["n"] % 3 == 0 else (v, r, s))
     except ValueError:
         return ("raise",)
     except Exception as e:  # noqa: BLE001 - any other exception type is itself a violation
